@@ -189,8 +189,8 @@ impl<'a> Ctx<'a> {
         for (prop, path) in by_prop.iter_mut() {
             let hdr = vec![
                 format!(
-                    "property {} (actor level) seed {} seq {} (re-run: ba_harness c02actor --seed {} --only-seq {})",
-                    prop, self.cfg.seed, self.seq, self.cfg.seed, self.seq
+                    "property {} (actor level) seed {} seq {} (re-run: ba_harness c02actor --seed {} --only-seq {}; inside c02/c04 the actor-level sequences are numbered 3000000+K)",
+                    prop, self.cfg.seed, 3_000_000 + self.seq, self.cfg.seed, self.seq
                 ),
                 format!("failing point: {}", what),
                 format!(
@@ -308,7 +308,7 @@ impl<'a> Ctx<'a> {
                 let hdr = vec![
                     format!(
                         "KNOWN F1 consequence (not counted as violation) seed {} seq {} (re-run: ba_harness c02actor --seed {} --only-seq {})",
-                        self.cfg.seed, self.seq, self.cfg.seed, self.seq
+                        self.cfg.seed, 3_000_000 + self.seq, self.cfg.seed, self.seq
                     ),
                     format!("miner {} cron callback aborted at epoch {} because UpdatePledgeTotal would make total_pledge_collateral negative; power actor deleted the claim while the miner still has active sectors", maddr, epoch),
                 ];
@@ -1416,6 +1416,7 @@ pub fn run_into(cfg: &RunCfg, rep: &mut Report) {
     let (nseq, max_steps) = if cfg.thorough() { (320u64, 60u64) } else { (24, 40) };
     let nseq = nseq * cfg.budget.max(1);
     let seqs: Vec<u64> = match cfg.only_seq {
+        Some(k) if k >= 3_000_000 => vec![k - 3_000_000],
         Some(k) => vec![k],
         None => (0..nseq).collect(),
     };
